@@ -62,7 +62,7 @@ func runC20(x *mc.X) {
 	qualified := x.Choose("stored-no-cache-names-the-validators", 2) == 1
 	// once the body is closed the caller may reuse its request object (net/http.RoundTripper): it changes a field and the URL
 	reuse := x.Choose("caller-reuses-its-request-object", 2) == 1
-	if reuse && !(second == "none" && cctx == "background" && logger == "" && window == "100000" && !qualified && lat == "1s" && teffOf(tset) > time.Second) {
+	if reuse && !(second == "none" && cctx == "background" && (x.Tier() == "thorough" || (logger == "" && window == "100000" && !qualified)) && lat == "1s" && teffOf(tset) > time.Second) {
 		x.Skip()
 	}
 	if window == "7" && second != "none" {
